@@ -119,6 +119,9 @@ func c01Sequential(r *core.Run, idx int, rng *rand.Rand) {
 		}
 	}
 	e := sc.build()
+	if idx%4 == 1 {
+		withUnaskedNames(e, r)
+	}
 	// a second, completed session of another user lives in the same world
 	other := randScenario(rng, canary+"o", false)
 	other.install(e.W)
